@@ -31,8 +31,8 @@ EXPLANATION = (
     "arguments by T2): every demand_timeseries_list.at in wntr.sim passes sim_time + pattern_start and the global multiplier. R-C01-5f (same sweep over every <obj>.at(t) call in wntr.sim, arguments by T2): every time series / pattern whose time argument depends on sim_time (reservoir head patterns as well as demands) is read at sim_time + pattern_start, one clock at all sites (sibling agreement); sites outside wntr.sim (pump speed conditions in controls.py) are listed in a note, not decided. R-C01-5c (T1 CFG must-pass): "
     "every path from the loop head to the solve refreshes demand and source-head parameters (create_hydraulic_model: presence of the call only). R-C01-5d "
     "(T2; getters by AST pattern, appends by regex): DD copies the requested demand, PDD the demand variable; results come from node.demand / leak_demand / "
-    "link.flow. R-C01-5e (T1 CFG): every pass of each element loop of the refresh assigns. R-C01-6 (T2 + AST shape match): isolation-graph entries are 0 "
-    "exactly for Closed links; parallel links are collected with flag ALL. Symbol texts are compared, so the receiver names wn / m, m.flow[..] / "
+    "link.flow. R-C01-5e (T1 CFG): every pass of each element loop of the refresh assigns. R-C01-6 (T2 for the entries, T3 for the pair table): isolation-graph entries are 0 "
+    "exactly for Closed links; the table of multi-link node pairs left by the interpreted _initialize_internal_graph on C09's mock network holds every such pair once with all its links, whatever their direction. Symbol texts are compared, so the receiver names wn / m, m.flow[..] / "
     "m.leak_rate[..] and loop texts like wn.tanks() are fixed. Decides the equations and bookkeeping, not the numerical tolerance attained.")
 RULE_TEXT = "one instance = one extracted formula / adjacency filter / call site / path rule; distinct by construct text"
 ASSUMPTIONS = ["the compiled evaluator evaluates the registered expression (C15); Newton converges (not decided)",
@@ -1416,6 +1416,36 @@ WITNESSES = [
     dict(name="graph-entry-also-zero-when-isolated", file=CORE,
          old="            if link.status == wntr.network.LinkStatus.Closed:\n                vals.append(0)\n                vals.append(0)\n            else:\n                vals.append(1)\n                vals.append(1)\n",
          new="            val = 0 if (link._is_isolated or link.status == wntr.network.LinkStatus.Closed) else 1\n            vals.append(val)\n            vals.append(val)\n", rule="R-C01-6"),
+    dict(name="parallel-link-table-with-guard-clauses", file=CORE,
+         old="        for from_node_id, to_node_id in n_links.keys():\n            if n_links[(from_node_id, to_node_id)] > 1:\n                if (to_node_id, from_node_id) in self._node_pairs_with_multiple_links:\n                    continue\n"
+             "                self._internal_graph[from_node_id, to_node_id] = 0\n                self._internal_graph[to_node_id, from_node_id] = 0\n"
+             "                from_node_name = self._node_id_to_name[from_node_id]\n                to_node_name = self._node_id_to_name[to_node_id]\n"
+             "                tmp_list = self._node_pairs_with_multiple_links[(from_node_id, to_node_id)] = []\n                for link_name in self._wn.get_links_for_node(from_node_name):\n"
+             "                    link = self._wn.get_link(link_name)\n                    if link.start_node_name == to_node_name or link.end_node_name == to_node_name:\n"
+             "                        tmp_list.append(link)\n                        if link.status != wntr.network.LinkStatus.Closed:\n                            ndx1, ndx2 = ndx_map[link]\n"
+             "                            self._internal_graph.data[ndx1] = 1\n                            self._internal_graph.data[ndx2] = 1\n",
+         new="        for (from_node_id, to_node_id), link_count in n_links.items():\n            if link_count <= 1:\n                continue\n            if (to_node_id, from_node_id) in self._node_pairs_with_multiple_links:\n                continue\n"
+             "            self._internal_graph[from_node_id, to_node_id] = 0\n            self._internal_graph[to_node_id, from_node_id] = 0\n"
+             "            from_node_name = self._node_id_to_name[from_node_id]\n            to_node_name = self._node_id_to_name[to_node_id]\n"
+             "            parallel_links = []\n            self._node_pairs_with_multiple_links[(from_node_id, to_node_id)] = parallel_links\n            for link_name in self._wn.get_links_for_node(from_node_name):\n"
+             "                link = self._wn.get_link(link_name)\n                if to_node_name not in (link.start_node_name, link.end_node_name):\n                    continue\n"
+             "                parallel_links.append(link)\n                if link.status != wntr.network.LinkStatus.Closed:\n                    ndx1, ndx2 = ndx_map[link]\n"
+             "                    self._internal_graph.data[ndx1] = 1\n                    self._internal_graph.data[ndx2] = 1\n", silent=True),
+    dict(name="guard-clause-parallel-link-table-misses-reversed-links", file=CORE,
+         old="        for from_node_id, to_node_id in n_links.keys():\n            if n_links[(from_node_id, to_node_id)] > 1:\n                if (to_node_id, from_node_id) in self._node_pairs_with_multiple_links:\n                    continue\n"
+             "                self._internal_graph[from_node_id, to_node_id] = 0\n                self._internal_graph[to_node_id, from_node_id] = 0\n"
+             "                from_node_name = self._node_id_to_name[from_node_id]\n                to_node_name = self._node_id_to_name[to_node_id]\n"
+             "                tmp_list = self._node_pairs_with_multiple_links[(from_node_id, to_node_id)] = []\n                for link_name in self._wn.get_links_for_node(from_node_name):\n"
+             "                    link = self._wn.get_link(link_name)\n                    if link.start_node_name == to_node_name or link.end_node_name == to_node_name:\n"
+             "                        tmp_list.append(link)\n                        if link.status != wntr.network.LinkStatus.Closed:\n                            ndx1, ndx2 = ndx_map[link]\n"
+             "                            self._internal_graph.data[ndx1] = 1\n                            self._internal_graph.data[ndx2] = 1\n",
+         new="        for (from_node_id, to_node_id), link_count in n_links.items():\n            if link_count <= 1:\n                continue\n            if (to_node_id, from_node_id) in self._node_pairs_with_multiple_links:\n                continue\n"
+             "            self._internal_graph[from_node_id, to_node_id] = 0\n            self._internal_graph[to_node_id, from_node_id] = 0\n"
+             "            from_node_name = self._node_id_to_name[from_node_id]\n            to_node_name = self._node_id_to_name[to_node_id]\n"
+             "            parallel_links = []\n            self._node_pairs_with_multiple_links[(from_node_id, to_node_id)] = parallel_links\n            for link_name in self._wn.get_links_for_node(from_node_name, 'OUTLET'):\n"
+             "                link = self._wn.get_link(link_name)\n                if to_node_name != link.end_node_name:\n                    continue\n"
+             "                parallel_links.append(link)\n                if link.status != wntr.network.LinkStatus.Closed:\n                    ndx1, ndx2 = ndx_map[link]\n"
+             "                    self._internal_graph.data[ndx1] = 1\n                    self._internal_graph.data[ndx2] = 1\n", rule="R-C01-6"),
     dict(name="reservoir-head-read-at-bare-sim-time", file=HYD, old="        node._head = node.head_timeseries.at(wn.sim_time + wn.options.time.pattern_start)\n",
          new="        node._head = node.head_timeseries.at(wn.sim_time)\n", rule="R-C01-5f"),
     dict(name="source-head-refresh-clock-hoisted-without-pattern-start", file=PAR, old="    if not hasattr(m, 'source_head'):\n",
